@@ -49,10 +49,16 @@ Definition undecided (cs : list case) : N :=
      0 ok;  1 reports differ, but every scope the model has synchronized is reported synchronized;
      2 a scope that the model has synchronized - run shared it with another routine - is reported as NOT
        synchronized: its variable map is used by two threads without a lock (the scenario is the failing input);
-     3 self-check: the generated scenario is not executable in the model or leaves its guard. ---- *)
-From C17 Require Import ScopeModel.
+     3 self-check: the generated scenario is not executable in the model or leaves its guard (a variable operation
+       names a scope that the lookup does not reach). ---- *)
+From C17 Require Import ScopeModel ScopeLockModel.
 
-Inductive xop := XOp (o : sop) | XObs (k : nat).
+(* XAcc k t b: the routine performs scope operation k on a variable bound in scope t by a binding of kind b (a let
+   variable / a with-slots variable), starting the lookup in its current scope.  The model (ScopeLockModel.v, the
+   discipline of the code: all_release) says that the operation finds the scope, completes and leaves no mutex locked
+   (ScopeLockProofs.scope_locks_released: so `held` is [] before every operation) - the routine goes on to its next
+   probe.  An implementation in which a routine does NOT go on (watchdog) is reported with the program by the harness. *)
+Inductive xop := XOp (o : sop) | XObs (k : nat) | XAcc (k : akind) (t : nat) (b : bind).
 Definition sobs := list (nat * list bool).
 Definition scase := (list (list xop) * sobs)%type.
 
@@ -62,6 +68,17 @@ Fixpoint exec_code (st : sstate) (i : nat) (code : list xop) (acc : sobs) : opti
   | XObs k :: code' =>
       match nth_error (stacks st) i with
       | Some (s :: _) => exec_code st i code' (acc ++ [(k, map (synced st) (anc st s))])
+      | _ => None
+      end
+  | XAcc k t b :: code' =>
+      match nth_error (stacks st) i with
+      | Some (s :: _) =>
+          if existsb (Nat.eqb t) (anc st s)
+          then match access all_release st [] (anc st s) k t b with
+               | Some [] => exec_code st i code' acc
+               | _ => None
+               end
+          else None
       | _ => None
       end
   | XOp o :: code' =>
